@@ -174,6 +174,19 @@ CHECKS["C04"] = dict(
          "concretely; Python frontend only in this round.",
     design="4/C04")
 
+CHECKS["C06"] = dict(
+    level="model_checking", engine="T+X",
+    technique="per generated program: real lian run (main.py semantic); CrossHair (z3) executes the reference GIR interpreter with "
+              "symbolic entry arguments, tracks the last writer of every local and checks it against lian's stored reaching sets; "
+              "concrete classical-RD scan over lian's CFG; CrossHair on the real analyze_stmts scheduler over acyclic CFGs",
+    text="Soundness is decided by the solver per program for all entry arguments with each loop body run at most once: at every "
+         "executed use the statement that last wrote the variable (element/field writes count as definitions of the container "
+         "symbol, as lian models them) is in semantic_p3/stmt_status_p3's in-set of the using statement. Precision on loop-free "
+         "methods is a concrete comparison with the classical solution over lian's own CFG. The scheduler kernel is model-checked "
+         "on every acyclic 4-statement CFG. Loops are confined to witnesses while the scheduler finding is open.",
+    note="Trusted: the reference interpreter and its definition convention, CrossHair/z3. Two open known findings (same root cause).",
+    design="4/C06")
+
 NOT_APPLICABLE = {
     "C12": "A relation between two whole-pipeline runs on syntactically edited programs: the quantified objects are "
            "program texts and edit sequences; no run-time input, id, flag or history for a solver to range over; "
